@@ -307,6 +307,9 @@ def worker(shard):
         acc.sample({'type': 'key_signature', 'key': 'F#m'}, cap=1)
     elif kind == 'tempo':
         vals = {0, 1, 255, 256, 65535, 65536, 500000, 16777214, 16777215}
+        vals |= {v for k in range(1, 25) for v in (2 ** k - 1, 2 ** k, 2 ** k + 1)
+                 if 0 <= v <= 16777215}
+        vals |= {0xFF00, 0xFF0000, 0x00FF00, 0x7F7F7F, 0x808080, 0xFFFF00}
         vals |= set(range(shard[1], 16777216, 4096))
         for v in sorted(vals):
             check_valid(mido, 'set_tempo', {'tempo': v}, acc,
